@@ -179,6 +179,26 @@ Theorem answer_writeback_creates_no_failure :
 Proof. exact writeback_answer_values. Qed.
 Print Assumptions answer_writeback_creates_no_failure.
 
+(* the failure clock: a failure answers only strictly before its retry-after instant *)
+Theorem failure_hit_only_before_retry_msg :
+  forall (K : Type) (K_eqb : K -> K -> bool) (H : bytes -> K) (salt_fq salt_fz : K -> K) now (s : store K) q cd p fe,
+    failure_lookup K K_eqb H salt_fq salt_fz (set_failure_clock K now s) q cd p = Some fe -> now < f_retry fe.
+Proof. exact failure_hit_before_retry_msg. Qed.
+Print Assumptions failure_hit_only_before_retry_msg.
+
+Theorem failure_hit_only_before_retry_wire :
+  forall (K : Type) (K_eqb : K -> K -> bool) (H : bytes -> K) (salt_fq salt_fz : K -> K) now (s : store K) w qt qc cd fe,
+    failure_lookup_wire K K_eqb H salt_fq salt_fz (set_failure_clock K now s) w qt qc cd = Some fe -> now < f_retry fe.
+Proof. exact failure_hit_before_retry_wire. Qed.
+Print Assumptions failure_hit_only_before_retry_wire.
+
+(* FailureCache.backoff stays between min(initial, max) and max for every streak *)
+Theorem failure_backoff_bounds :
+  forall initial maxttl streak,
+    N.min initial maxttl <= backoff initial maxttl streak /\ backoff initial maxttl streak <= maxttl.
+Proof. intros. split; [apply backoff_ge_min|apply backoff_le_max]. Qed.
+Print Assumptions failure_backoff_bounds.
+
 (* subtree-cut lookups: a denied ancestor-or-self (label boundaries) of the same class *)
 Theorem hit_implies_same_question_cut :
   forall (K : Type) (K_eqb : K -> K -> bool) (H : bytes -> K) (s : store K) q c,
@@ -194,6 +214,19 @@ Theorem hit_implies_same_question_cut_wire :
     exists cand, In cand (wire_name_suffixes w) /\ wire_equals_pres cand (c_name c) = true.
 Proof. exact cut_lookup_wire_sound. Qed.
 Print Assumptions hit_implies_same_question_cut_wire.
+
+(* once a cut's lifetime ended neither route answers from it *)
+Theorem expired_cut_never_answers :
+  forall (K : Type) id (s : store K) q c,
+    cut_lookup K (expire_cut K id s) q = Some c -> c_id c <> id.
+Proof. exact expire_cut_lookup. Qed.
+Print Assumptions expired_cut_never_answers.
+
+Theorem expired_cut_never_answers_wire :
+  forall (K : Type) (K_eqb : K -> K -> bool) (H : bytes -> K) (salt_cut : K -> K) id (s : store K) w qc c,
+    cut_lookup_wire K K_eqb H salt_cut (expire_cut K id s) w qc = Some c -> c_id c <> id.
+Proof. exact expire_cut_lookup_wire. Qed.
+Print Assumptions expired_cut_never_answers_wire.
 
 (* the whole ladder (wire rungs, then the decoded body) and Store.Get: an exact-answer reply
    always comes from an entry admitted for the question and an audience containing the client *)
